@@ -744,6 +744,31 @@ def shared_tree(g, d=3):
     return t, nat
 
 
+def same_unit_sums():
+    """Deterministic table: sums (2-3 terms; also inside Abs, as piecewise pieces, as relation sides) whose leaves ALL
+    carry one unit u in {percent, mV/volt, ms, mV} and whose terms are products / quotients / powers / exp of those
+    leaves or plain numbers.  -> list of (name, tree, u)"""
+    out = []
+    inv = lambda x: [6, x, [0, 0, F(-1)]]       # noqa: E731
+    neg = lambda x: [5, [0, 0, F(-1)], x]       # noqa: E731
+    for uname, u in (('percent', 1 + ATOM_ID['percent']), ('mV/volt', UTAB.index(nu(mV=1, volt=-1))),
+                     ('ms', 1 + ATOM_ID['ms']), ('mV', 1 + ATOM_ID['mV'])):
+        a, b, c, q = [3, 3 * u], [3, 3 * u + 1], [3, 3 * u + 2], [2, 1, F(3, 2), u]
+        terms = [('b', b), ('b*c', [5, b, c]), ('-b*c', neg([5, b, c])), ('b/c', [5, b, inv(c)]), ('b**2', [6, b, [0, 0, F(2)]]),
+                 ('-b**2', neg([6, b, [0, 0, F(2)]])), ('1/b', inv(b)), ('exp(b)', [7, 0, b]), ('b*exp(c)', [5, b, [7, 0, c]]),
+                 ('2', [0, 0, F(2)]), ('2*b', [5, [0, 0, F(2)], b]), ('b*c/q', [5, b, c, inv(q)]), ('q', q),
+                 ('sqrt(b*c)', [6, [5, b, c], [0, 1, F(1, 2)]])]
+        sums = [('a + %s' % n, [4, a, t]) for n, t in terms] + [('%s + a' % n, [4, t, a]) for n, t in terms[1:8]]
+        sums += [('a + %s + %s' % (terms[i][0], terms[j][0]), [4, a, terms[i][1], terms[j][1]])
+                 for i, j in ((0, 1), (1, 3), (3, 0), (4, 0), (9, 0), (10, 11), (12, 13))]
+        for n, t in sums:
+            out.append(('%s [all leaves in %s]' % (n, uname), t, u))
+            out.append(('Abs(%s) [%s]' % (n, uname), [7, 2, t], u))
+            out.append(('Piecewise((%s, a < b), (a, True)) [%s]' % (n, uname), [13, [t, [9, 2, a, b]], [a, [11]]], u))
+            out.append(('%s < a [%s]' % (n, uname), [9, 2, t, a], u))
+    return out
+
+
 def exp_value(x):
     """true value of a closed exponent tree (None if not closed over numbers / quantities)"""
     try:
